@@ -72,3 +72,16 @@ def scenarios(seed, n, wd, seconds=12):
     rng = random.Random(seed)
     rng.shuffle(behs)
     return [to_scenario(b, i, seed) for i, b in enumerate(behs[:n])], len(behs)
+
+
+CORPUS = os.path.join(runner.SPEC, "generated", "MC_TreeGen-seed11.ndjson")
+
+
+def corpus_scenarios(seed, n):
+    """Scenarios from the committed corpus of TLC-generated behaviours (the corpus depends only on the
+    specification; `bin/gen-behaviours` regenerates it)."""
+    with open(CORPUS) as f:
+        behs = [json.loads(x) for x in f if x.strip()]
+    rng = random.Random(seed)
+    rng.shuffle(behs)
+    return [to_scenario(b, i, seed) for i, b in enumerate(behs[:n])]
